@@ -66,7 +66,17 @@ def gen_case(rng, idx):
     flavour = ["clean", "zeros", "nans", "both"][idx % 4]
     tiny = (idx // 4) % 2 == 1          # every second block of four: tiny non-zero entries next to zeros/NaNs
     if kind == "identity":
-        keys = {"<None>": int(rng.integers(1, 7))} if rng.random() < 0.5 else {"a": int(rng.integers(1, 6)), "bb": int(rng.integers(1, 4))}
+        kchoice = idx % 5
+        if kchoice in (0, 1):
+            keys = {"<None>": int(rng.integers(1, 7))}
+        elif kchoice in (2, 3):
+            keys = {"a": int(rng.integers(1, 6)), "bb": int(rng.integers(1, 4))}
+        else:
+            # keys longer than the widest table column (42) that share their first 41+ characters,
+            # and one of exactly the column width: the returned values must keep the full keys apart
+            stem = "very_long_operator_key_name_for_the_table_" + "x" * int(rng.integers(0, 6))
+            keys = {stem + "_first": int(rng.integers(1, 5)), stem + "_second": int(rng.integers(1, 5)),
+                    "k" * 42: int(rng.integers(1, 4))}
         samples = []
         for _ in range(nsamp):
             s = {}
@@ -151,9 +161,15 @@ def run_case(c):
     for sec in resid:
         classic[sec] = {}
         for k in resid[sec]:
-            classic[sec][k] = {"rcs": ms["redchisq"][sec][k]["mean"], "rcs_std": ms["redchisq"][sec][k]["std"],
-                               "mean": ms["scmean"][sec][k]["mean"], "mean_std": ms["scmean"][sec][k]["std"],
-                               "ndof": int(ms["ndof"][sec][k]), "nig": int(ms["nigndof"][sec][k])}
+            try:
+                classic[sec][k] = {"rcs": ms["redchisq"][sec][k]["mean"], "rcs_std": ms["redchisq"][sec][k]["std"],
+                                   "mean": ms["scmean"][sec][k]["mean"], "mean_std": ms["scmean"][sec][k]["std"],
+                                   "ndof": int(ms["ndof"][sec][k]), "nig": int(ms["nigndof"][sec][k])}
+            except KeyError:
+                classic[sec][k] = {"missing": True, "returned_keys": sorted(ms["redchisq"][sec].keys())}
+        extra = sorted(set(ms["redchisq"][sec].keys()) - set(resid[sec].keys()))
+        if extra:
+            classic[sec]["__extra_keys__"] = extra
     jx = {}
     for sec in resid:
         tree = {k: np.stack(v) for k, v in resid[sec].items()}
@@ -166,7 +182,26 @@ def run_case(c):
             same = all(np.array_equal(np.asarray(getattr(a, f)), np.asarray(getattr(b, f)), equal_nan=True) for f in ("mean", "reduced_chisq", "ndof"))
             jx[sec][k] = {"mean": complex(np.asarray(a.mean)[0]), "rcs": float(np.asarray(a.reduced_chisq)[0]),
                           "ndof": int(a.ndof), "wrapper_same": bool(same), "fields": list(a._fields)}
-    return {"resid": resid, "classic": classic, "jax": jx}
+    # MAP state / single position: a Samples object WITHOUT samples and a bare position, each with a
+    # `func`; the statistics must be those of func(position) as one sample
+    import jax as _jax
+    half = lambda t: _jax.tree_util.tree_map(lambda a: 0.5 * a, t)       # noqa: E731
+    pos = {k: v[0] for k, v in resid["latent_variables"].items()}
+    mp = {}
+    ref_st = jft.reduced_residual_stats(jft.Samples(pos=None, samples={k: np.stack([0.5 * v]) for k, v in pos.items()}))
+    calls = {"samples_none_func": lambda: jft.reduced_residual_stats(jft.Samples(pos=pos, samples=None), half),
+             "position_func": lambda: jft.reduced_residual_stats(pos, half),
+             "minisanity_samples_none_func": lambda: jft.minisanity(jft.Samples(pos=pos, samples=None), half)[0]}
+    for name, call in calls.items():
+        st = call()
+        mp[name] = {}
+        for k in pos:
+            a, b = st[k], ref_st[k]
+            same = all(np.array_equal(np.asarray(getattr(a, f)), np.asarray(getattr(b, f)), equal_nan=True) for f in ("mean", "reduced_chisq", "ndof"))
+            mp[name][k] = {"mean": complex(np.asarray(a.mean)[0]), "rcs": float(np.asarray(a.reduced_chisq)[0]),
+                           "ndof": int(a.ndof), "same_as_explicit_sample": bool(same)}
+    mp_arrays = {k: [0.5 * v] for k, v in pos.items()}
+    return {"resid": resid, "classic": classic, "jax": jx, "map": mp, "map_arrays": mp_arrays}
 
 
 # --------------------------------------------------------------------------------------------------
@@ -269,6 +304,10 @@ def direct_failures(c, o):
             size = arrs[0].size
             cl = o["classic"][sec][k]
             cls = classify(arrs, c["cplx"])
+            if cl.get("missing") or o["classic"][sec].get("__extra_keys__"):
+                out.append(({"api": "classic", "class": "keys"}, "classic minisanity %s: returned keys %r do not match the keys of the domain %r (long keys must not be renamed or merged in the returned values)" % (
+                    sec, cl.get("returned_keys", o["classic"][sec].get("__extra_keys__")), sorted(o["resid"][sec].keys()))))
+                continue
             if abs(cl["rcs"] - rcs) > tol or abs(complex(cl["mean"]) - mean) > tol:
                 out.append(({"api": "classic", "class": cls}, "classic minisanity %s/%s reports chi2=%r mean=%r, reference %r %r" % (sec, k, cl["rcs"], cl["mean"], rcs, mean)))
             if cl["ndof"] + cl["nig"] != size or cl["nig"] not in nig:
@@ -286,6 +325,11 @@ def direct_failures(c, o):
                     what = "jft.minisanity(func=identity) differs from reduced_residual_stats; " + what
                     cls = "wrapper"
                 out.append(({"api": "jax", "class": cls, "quantity": quantity}, what))
+    for name, per in o.get("map", {}).items():
+        for k, v in per.items():
+            if not v["same_as_explicit_sample"]:
+                out.append(({"api": "jax", "class": "map-state"}, "JAX diagnostics, %s, key %s: chi2=%r mean=%r differ from the statistics of func(position) passed as one explicit sample" % (name, k, v["rcs"], v["mean"])))
+                break
     return out
 
 
@@ -341,16 +385,24 @@ class C36(C.Check):
                         # (classic reports 0, proved as coded in C36_classic_sample); not compared
                         self.skipped += 1
                         continue
-                    checks.append(classic_term(arrs, o["classic"][sec][k], c["cplx"]))
+                    cl = o["classic"][sec][k]
+                    checks.append("false" if cl.get("missing") or o["classic"][sec].get("__extra_keys__") else classic_term(arrs, cl, c["cplx"]))
                     where.append((ci, sec, k, "classic"))
                     checks.append(jax_term(arrs, o["jax"][sec][k], c["cplx"]))
                     where.append((ci, sec, k, "jax"))
+        for ci, (c, o) in enumerate(self.obs):
+            for name in o["map"]:
+                for k, arrs in o["map_arrays"].items():
+                    checks.append(jax_term(arrs, o["map"][name][k], c["cplx"]))
+                    where.append((ci, "map:" + name, k, "jax"))
         bad = C.eval_cases(self.prop, "corr_p%d" % os.getpid(), HEADER, checks)
         for i in bad[:4]:
             ci, sec, k, api = where[i]
+            ob = self.obs[ci][1]
+            seen_ = ob["map"][sec[4:]][k] if sec.startswith("map:") else ob[api][sec][k]
             res.add_broken("correspondence", "%s diagnostics vs coq/C36/Model.v" % api,
                            {"case": cases[ci], "section": sec, "key": k, "check": checks[i][:1500],
-                            "observed": {a: str(b) for a, b in self.obs[ci][1][api][sec][k].items()}})
+                            "observed": {a: str(b) for a, b in seen_.items()}})
         classes = {}
         for c, o in self.obs:
             for sec in o["resid"]:
